@@ -378,14 +378,30 @@ def rule_n5(ck, prog, S):
     if g is not None:
         st = K.site(g, "length-exact", 0)
         sums = P.summarize(g)
-        neq = [ps for ps in sums if any(not isinstance(pol, tuple) and a.k == "BinaryOperator" and a.get("op") == "!=" and pol and
-                                        {a.child(0).strip_all_casts().get("path"), a.child(1).strip_all_casts().get("path")} == {"len1", "len2"}
-                                        for a, pol in ps.facts)]
-        ci = [c for c in g.calls() if c.get("callee") in ("strncasecmp", "OUR_strncasecmp", "strnicmp")]
-        if neq and all(ps.ret is not None and ps.ret.truth() is False for ps in neq) and ci:
+        l1, l2 = g.params[1]["name"], g.params[3]["name"]
+        # every path on which the two lengths are known to differ returns FALSE; every TRUE path knows them equal and has
+        # seen the case-insensitive comparison come out as 0 (whatever the control-flow spelling: guard, nesting, flag)
+        ci_names = ("strncasecmp", "OUR_strncasecmp", "strnicmp", "_strnicmp")
+        ci = [c for c in g.calls() if c.get("callee") in ci_names]
+        bad = None
+        for ps in sums:
+            t = ps.ret.truth() if ps.ret is not None else None
+            differ = K.holds_rel(ps.facts, l1, "!=", l2)
+            equal = K.holds_rel(ps.facts, l1, "==", l2)
+            if differ and t is not False:
+                bad = "a path with %s != %s does not return FALSE" % (l1, l2)
+            if t is not False:
+                cmp0 = any(not isinstance(pol, tuple) and a.k == "BinaryOperator" and a.get("op") in ("==", "!=") and
+                           (pol if a["op"] == "==" else not pol) and C.const_of(a.child(1)) == 0 and
+                           a.child(0).strip_all_casts().k == "CallExpr" and a.child(0).strip_all_casts().get("callee") in ci_names
+                           for a, pol in ps.facts) or \
+                    any(not isinstance(pol, tuple) and a.k == "CallExpr" and a.get("callee") in ci_names and pol is False for a, pol in ps.facts)
+                if not equal or not cmp0:
+                    bad = bad or "a path can return TRUE without equal lengths and an equal case-insensitive comparison (%s)" % ps.describe()[-3:]
+        if ci and bad is None and any(ps.ret is not None and ps.ret.truth() is True for ps in sums):
             ck.holds("C04-N5", st, K.loc(g), "different lengths => FALSE; equal lengths compared case-insensitively")
         else:
-            ck.violated("C04-N5", st, K.loc(g), "compareStr is not a length-exact case-insensitive comparison")
+            ck.violated("C04-N5", st, K.loc(g), "compareStr is not a length-exact case-insensitive comparison: %s" % (bad or "no case-insensitive comparison / no TRUE path"))
         ck.analysed(g)
     # transformNumber applies mult and unit of the found row
     t = prog.fn("transformNumber")
